@@ -27,6 +27,7 @@ import (
 	"github.com/lindb/lindb/kv/table"
 	"github.com/lindb/lindb/kv/version"
 	"github.com/lindb/lindb/metrics"
+	"github.com/lindb/lindb/pkg/verifhook"
 )
 
 //go:generate mockgen -source ./flusher.go -destination=./flusher_mock.go -package kv
@@ -157,6 +158,7 @@ func (sf *storeFlusher) Commit() (err error) {
 		err = fmt.Errorf("commit edit log failure")
 		return err
 	}
+	verifhook.Yield("kv.flush.afterCommit")
 	return nil
 }
 
